@@ -193,8 +193,9 @@ func (f *frame) staticCall(site siteT, callee *ssa.Function, args []Val, pos tok
 				arr := c.heapGet(f.heap, ekey, esort)
 				nv := c.fresh(ekey+"~sorted", arrayElemSort(esort))
 				c.heapSet(f.heap, ekey, ite(eq(sBase(sl), tNil), arr, store(arr, sBase(sl), nv)))
+				f.assumePermutation(sl, arr, nv)
 				f.assumeSortedBy("less", sl, st.Elem(), nv, f.get(cc.Args[1]))
-				c.assumed["sort.Slice rearranges the elements of its slice argument only; its comparison function has no side effects (the rearranged contents are left unconstrained)"] = true
+				c.assumed["sort.Slice rearranges the elements of its slice argument only (a permutation); its comparison function has no side effects"] = true
 				c.externs[key] = true
 				return Tuple{}
 			}
@@ -238,10 +239,11 @@ func (f *frame) staticCall(site siteT, callee *ssa.Function, args []Val, pos tok
 			arr := c.heapGet(f.heap, ekey, esort)
 			nv := c.fresh(ekey+"~sorted", arrayElemSort(esort))
 			c.heapSet(f.heap, ekey, ite(eq(sBase(sl), tNil), arr, store(arr, sBase(sl), nv)))
+			f.assumePermutation(sl, arr, nv)
 			if len(cc.Args) == 2 {
 				f.assumeSortedBy("cmp", sl, st.Elem(), nv, f.get(cc.Args[1]))
 			}
-			c.assumed["slices.Sort / SortFunc / SortStableFunc rearrange the elements of their slice argument only; the comparison function has no side effects (the rearranged contents are left unconstrained)"] = true
+			c.assumed["slices.Sort / SortFunc / SortStableFunc rearrange the elements of their slice argument only (a permutation); the comparison function has no side effects"] = true
 			c.externs[key] = true
 			return Tuple{}
 		}
@@ -260,6 +262,23 @@ func (f *frame) staticCall(site siteT, callee *ssa.Function, args []Val, pos tok
 		return f.inline(site, callee, args, nil, pos)
 	}
 	return f.unknownCall(site, key, callee.Signature, args, pos)
+}
+
+// assumePermutation: the new contents nv of the slice sl are a permutation of its old contents
+// (new[k] == old[perm[k]] for an injective perm; which permutation is left open).
+func (f *frame) assumePermutation(sl, arr, nv Term) {
+	c := f.c
+	perm := c.fresh("perm~sort", arraySort(SInt, SInt))
+	oldInner := c.name("presort", sel(arr, sBase(sl)))
+	c.counter["q"]++
+	k := quote(fmt.Sprintf("q k %d", c.counter["q"]))
+	c.counter["q"]++
+	k2 := quote(fmt.Sprintf("q k %d", c.counter["q"]))
+	off, ln := sOff(sl).S, sLen(sl).S
+	c.assume(implies(f.guard, Term{fmt.Sprintf("(forall ((%s Int)) (! (=> (and (<= 0 %s) (< %s %s)) (and (<= 0 (select %s %s)) (< (select %s %s) %s) (= (select %s (+ %s %s)) (select %s (+ %s (select %s %s)))))) :pattern ((select %s (+ %s %s)))))",
+		k, k, k, ln, perm.S, k, perm.S, k, ln, nv.S, off, k, oldInner.S, off, perm.S, k, nv.S, off, k), SBool}))
+	c.assume(implies(f.guard, Term{fmt.Sprintf("(forall ((%s Int) (%s Int)) (=> (and (<= 0 %s) (< %s %s) (< %s %s)) (not (= (select %s %s) (select %s %s)))))",
+		k, k2, k, k, k2, k2, ln, perm.S, k, perm.S, k2), SBool}))
 }
 
 func (f *frame) onStack(fn *ssa.Function) bool {
